@@ -298,6 +298,26 @@ func Gen(c *core.Chooser, p *PDU, o GenOpt) *Msg {
 			}
 		}
 	}
+	// a body that carries a concatenation header usually comes with the header indicator set; the part counters of
+	// the PDU itself may say the same as the header, something else, or nothing (0/0)
+	for _, f := range p.Fields {
+		v := m.F[f.Name]
+		if v == nil || f.Kind != KOctets || len(v.B) < 7 || v.B[1] != 0 && v.B[1] != 8 || !(v.B[0] == 5 && v.B[2] == 3 || v.B[0] == 6 && v.B[2] == 4) {
+			continue
+		}
+		if u := m.F["TP_udhi"]; u != nil && c.Prob(2, 3) {
+			u.U = 1
+		}
+		if t, n := m.F["Pk_total"], m.F["Pk_number"]; t != nil && n != nil {
+			switch c.Intn(3) {
+			case 0:
+				t.U, n.U = 0, 0
+			case 1:
+				t.U, n.U = uint64(v.B[len(v.B[:v.B[0]+1])-2]), uint64(v.B[v.B[0]])
+			}
+		}
+		break
+	}
 	if o.Shape == 0 && c.Prob(1, 8) {
 		coincide(c, m)
 	}
